@@ -1,11 +1,14 @@
 """C23 - tar-stream copies are exact or fail, however the stream is chunked (module TarStream).
 
 Model: specs/TarStream/TarStream.tla - the reader layers of streamflow/deployment/aiotarstream.py as coded
-(TellableStreamWrapper.read loop, SeekableStreamReaderWrapper.seek = one raw read, fromtarfile, next() with its
-swallowing branches, the two extraction paths of extract_tar_stream) over a raw stream that answers read(k)
-with any 1..k units; truncation and header corruption as faults.  TLC checks the REPAIRED design against all
-properties (safety + termination) and the AS-CODED design against the properties it keeps; the as-coded
-design violates ExactOrFail / NoHang, and those counterexamples are replayed on the real code.
+(TellableStreamWrapper.read loop, SeekableStreamReaderWrapper.seek, fromtarfile, next() with its swallowing
+branches, the two extraction paths of extract_tar_stream) over a raw stream that answers read(k) with any 1..k
+units; truncation and header corruption as faults.  Three switches select the design: AS CODED since 02c607f =
+FixSeek and FixData and not FixHdr (seek loops and raises, the end of the stream inside data raises, next() still
+swallows truncated/corrupted headers after the first member); REPAIRED = all three.  TLC checks the repaired
+design against all properties (safety + termination) and the as-coded design against TellIsTrue, NoHang,
+IntactExact, OnlyHeaderSwallowingLeft and termination; the as-coded design still violates ExactOrFail on
+truncated / corrupted streams, and those counterexamples are replayed on the real code.
 
 Binding (spec -> code, B-sim): every behaviour TLC generates (exhaustively: every chunking of a small archive;
 by simulation for larger ones) is replayed on REAL archives of that shape (written by Python tarfile GNU/PAX/
@@ -194,10 +197,8 @@ def judge(ctx, res, fault, cls, model=None, info=None):
         sig = "unpredicted:%s:%s:model-says-%s" % (fault or "intact", bad if only_loss or bad != "loss" else "+".join(sorted(d)), model["outcome"])
     elif bad == "loss" and not only_loss:
         sig = "wrong-tree:%s:%s" % (fault or "intact", "+".join(sorted(d)))
-    elif fault == "trunc" and bad == "loss" and model is not None and "short-read-in-seek" in model["causes"]:
-        # the stream is also truncated, but the members are lost through a short answer inside seek before the end is reached
-        sig = "silent-loss:short-read-in-seek"
     elif fault == "trunc":
+        # a truncated stream is named by where it ends, whatever raw short reads happened on the way
         sig = ("truncated:success-reported:%s" if bad == "loss" else "truncated:hang-in-copy:%s") % cls
     elif fault == "corrupt":
         sig = "corrupted-header:success-reported" if bad == "loss" else "corrupted-header:hang"
@@ -296,11 +297,17 @@ def shapes_module(shapes):
             "=============================================================================\n" % ",\n              ".join(shapes))
 
 
-def cfg_text(B, bufs, paths, trunc, corrupt, fixseek=False, fixtrunc=False, gen=True):
+# the design as coded in /repo (since 02c607f): seek loops and raises, the end of the stream inside data raises,
+# next() still swallows truncated / corrupted headers after the first member
+AS_CODED = {"FixSeek": True, "FixData": True, "FixHdr": False}
+
+
+def cfg_text(B, bufs, paths, trunc, corrupt, flags=AS_CODED):
     t = lambda b: "TRUE" if b else "FALSE"
-    return ("CONSTANTS B = %d  Bufs = {%s}  Paths = {%s}  WithTrunc = %s  WithCorrupt = %s  FixSeek = %s  FixTrunc = %s\n"
+    return ("CONSTANTS B = %d  Bufs = {%s}  Paths = {%s}  WithTrunc = %s  WithCorrupt = %s  FixSeek = %s  FixData = %s  FixHdr = %s\n"
             "CONSTANT Shapes <- GenShapes\nINIT GenInit\nNEXT GenNext\n" % (
-                B, ", ".join(map(str, bufs)), ", ".join('"%s"' % p for p in paths), t(trunc), t(corrupt), t(fixseek), t(fixtrunc)))
+                B, ", ".join(map(str, bufs)), ", ".join('"%s"' % p for p in paths), t(trunc), t(corrupt),
+                t(flags["FixSeek"]), t(flags["FixData"]), t(flags["FixHdr"])))
 
 
 def trace_to_behaviour(trace):
@@ -382,7 +389,8 @@ def model_phase(ctx, by_tree):
     tier = ctx.pick("quick", "thorough")
     job("fixed", "MC_TarStream", "MC_TarStream_fixed_%s.cfg" % tier, coverage=True, timeout=3000)
     job("ascoded", "MC_TarStream", "MC_TarStream_ascoded_%s.cfg" % tier, coverage=True, timeout=3000)
-    cex_runs = ctx.pick([], ["seek", "trunc", "corrupt", "hang"])
+    # the violations the as-coded design still has: ExactOrFail on a truncated stream and on a corrupted header
+    cex_runs = ctx.pick([], ["trunc", "corrupt"])
     for c in cex_runs:
         job("cex_" + c, "MC_TarStream", "MC_TarStream_cex_%s.cfg" % c, timeout=1800, count=False)
 
@@ -421,6 +429,8 @@ def model_phase(ctx, by_tree):
     gen("all_chunkings_tree_B3", ctx.pick(["q"], ["q", "cex"]), 3, [99], ["B"], False, True, per=ctx.pick(2, 3))
     gen("all_chunkings_file_B3", ctx.pick(["file511"], ["file513", "file511"]), 3, [99], ["A", "B"], True, True,
         per=ctx.pick(2, 3))
+    if ctx.quick:
+        gen("all_faults_tree_B3", ["q"], 3, [3], ["B"], True, False, per=1)
     if not ctx.quick:
         gen("all_chunkings_tree_B4", ["q"], 4, [99], ["B"], False, False, per=2, max_log2=14)
         gen("all_faults_tree_B3", ["q"], 3, [3], ["B"], True, False, per=2)
@@ -450,7 +460,7 @@ def model_phase(ctx, by_tree):
 
     async def replays():
         # ---- counterexamples of the as-coded design, replayed on the real code
-        for c, tree in (("seek", "cex"), ("trunc", "cex"), ("corrupt", "cex"), ("hang", "file513")):
+        for c, tree in (("trunc", "cex"), ("corrupt", "cex")):
             if c not in cex_runs:
                 continue
             r = results["cex_" + c]
@@ -467,8 +477,8 @@ def model_phase(ctx, by_tree):
                 ctx.impl_trace(1)
             ctx.count("counterexample_%s_followed_by_code" % c, followed)
             ctx.count("counterexample_%s_replays" % c, len(matching))
-            if c == "seek":
-                ctx.sample({"counterexample": "ExactOrFail (as coded)", "reads": beh["reads"], "model": beh["pc"],
+            if c == "trunc":
+                ctx.sample({"counterexample": "ExactOrFail (as coded, truncated stream)", "reads": beh["reads"], "model": beh["pc"],
                             "created": beh["created"], "causes": beh["causes"], "real_archives_following": followed})
         # ---- generated behaviours
         for name, B, sm, exhaustive, per in gens:
@@ -544,7 +554,7 @@ async def fixed_chunks_phase(ctx, by_tree):
     ctx.count("fixed_and_random_chunk_copies", n)
     # byte-level truncation: every block boundary and the bytes next to it, whole-buffer reads (no chunking involved)
     m = 0
-    for t in ctx.pick(["mix"], ["cex", "mix", "file511", "file513"]):
+    for t in ctx.pick(["q", "cex", "mix"], ["q", "cex", "mix", "file511", "file513"]):
         for arc in by_tree.get(t, []):
             sh = arc.shape(4)
             points = set()
@@ -555,12 +565,16 @@ async def fixed_chunks_phase(ctx, by_tree):
                     if b >= len(arc.data):
                         continue
                     cls = sh.class_of_byte(b)
-                    res = await runner.copy(arc, path, b, chunker=None, bufsize=65536)
-                    judge(ctx, res, "trunc", cls, None, {"case": "%s path=%s truncated after %d bytes (%s), whole-buffer reads" % (arc.label, path, b, cls),
-                                                         "archive": arc.label, "trunc_byte": b, "path": path})
-                    ctx.case(("trunc", arc.label, path, b), True)
-                    ctx.count("trunc_class:%s" % cls)
-                    m += 1
+                    for chunk in (None, 7):
+                        ch = None if chunk is None else (lambda size, pos, c=chunk: c)
+                        res = await runner.copy(arc, path, b, chunker=ch, bufsize=65536 if chunk is None else 64)
+                        judge(ctx, res, "trunc", cls, None,
+                              {"case": "%s path=%s truncated after %d bytes (%s), %s" % (
+                                  arc.label, path, b, cls, "whole-buffer reads" if chunk is None else "chunks of %d bytes" % chunk),
+                               "archive": arc.label, "trunc_byte": b, "path": path, "trunc_chunk": chunk})
+                        ctx.case(("trunc", arc.label, path, b, chunk), True)
+                        ctx.count("trunc_class:%s" % cls)
+                        m += 1
     ctx.count("byte_level_truncations", m)
     ctx.impl_trace(n + m)
 
@@ -682,9 +696,12 @@ def replay(ctx, data):
         if "behaviour" in d:
             await replay_behaviour(ctx, runner, d["behaviour"], arc, d["B"], "replay")
         elif "trunc_byte" in d:
-            res = await runner.copy(arc, d["path"], d["trunc_byte"], bufsize=65536)
+            chunk = d.get("trunc_chunk")
+            res = await runner.copy(arc, d["path"], d["trunc_byte"], chunker=None if chunk is None else (lambda size, pos: chunk),
+                                    bufsize=65536 if chunk is None else 64)
             judge(ctx, res, "trunc", arc.shape(4).class_of_byte(d["trunc_byte"]), None, {"case": d.get("case"), "archive": arc.label,
-                                                                                         "trunc_byte": d["trunc_byte"], "path": d["path"]})
+                                                                                         "trunc_byte": d["trunc_byte"], "path": d["path"],
+                                                                                         "trunc_chunk": chunk})
         else:
             ch = make_chunker(ctx, arc, d["path"], d["bufsize"], d["chunk"])
             res = await runner.copy(arc, d["path"], len(arc.data), chunker=ch, bufsize=d["bufsize"])
